@@ -133,4 +133,39 @@ Section H.
       destruct Hin as [E|Hin]; [cbn [fst] in E; contradiction|].
       exact (IH Hms Hl2 (fst (build 0 st f)) vs s2 a2 hs s1 a1 hs1 Hcons H N HN Hin).
   Qed.
+  (* names of the holes: late names, members of the structure, no duplicate *)
+  Lemma enc_skip_names ms : NoDup (map fst ms) ->
+    forall vs s a hs s1 a1 hs1, enc_skip bo lim pc_skips ms vs (s, a) hs = Some (s1, a1, hs1) ->
+      exists nh, hs1 = hs ++ nh /\ NoDup (map h_name nh) /\
+        Forall (fun h => existsb (String.eqb (h_name h)) pc_skips = true /\ In (h_name h) (map fst ms)) nh.
+  Proof.
+    induction ms as [|[n f] ms IH]; intros Hnd vs s a hs s1 a1 hs1 H.
+    - destruct vs; [|discriminate]. cbn [enc_skip fst snd] in H. injection H as <- <- <-.
+      exists []. rewrite app_nil_r. repeat split; constructor.
+    - destruct vs as [|v vs]; [discriminate|]. cbn [enc_skip fst snd] in H.
+      cbn [map fst] in Hnd. inversion Hnd as [|? ? Hn Hms]; subst.
+      destruct (skip_ft pc_skips n f) as [[size al]|] eqn:Esk.
+      + destruct v as [z|bs|l]; try discriminate.
+        destruct (IH Hms vs s _ _ s1 a1 hs1 H) as (nh & E & ND & F).
+        exists (mk_hole (align_up a al) size n :: nh). split; [rewrite E, <- app_assoc; reflexivity|].
+        split.
+        * cbn [map h_name]. constructor; [|exact ND]. intros Hin. apply Hn.
+          rewrite in_map_iff in Hin. destruct Hin as (h & Eh & Hh).
+          rewrite Forall_forall in F. destruct (F h Hh) as [_ X]. rewrite Eh in X. exact X.
+        * constructor.
+          -- cbn [h_name map fst]. split; [|left; reflexivity].
+             unfold skip_ft in Esk. destruct (existsb (String.eqb n) pc_skips); [reflexivity|discriminate].
+          -- eapply Forall_impl; [|exact F]. cbn beta. intros h [X Y]. split; [exact X|right; exact Y].
+      + destruct (enc bo lim f v (s, a)) as [[s2 a2]|] eqn:E2; [|discriminate].
+        destruct (IH Hms vs s2 a2 hs s1 a1 hs1 H) as (nh & E & ND & F).
+        exists nh. repeat split; auto.
+        eapply Forall_impl; [|exact F]. cbn beta. intros h [X Y]. split; [exact X|right; exact Y].
+  Qed.
 End H.
+
+Lemma has_member_in s n : has_member s n = true <-> In n (map fst (s_mems s)).
+Proof.
+  unfold has_member. rewrite existsb_exists. split.
+  - intros (m & Hm & E). apply String.eqb_eq in E. subst. apply in_map. exact Hm.
+  - rewrite in_map_iff. intros (m & E & Hm). exists m. split; [exact Hm|]. apply String.eqb_eq. exact E.
+Qed.
